@@ -25,6 +25,8 @@ def main():
         d = os.path.join(VERIF, "seeded", mid)
         meta = json.load(open(os.path.join(d, "meta.json")))
         todo = checks or meta.get("checks") or [meta["property"]]
+        # the checks rewrite evidence/<id>.json: keep the evidence of the unchanged tree
+        sh("rm -rf %s/work/evidence_keep && cp -r %s/evidence %s/work/evidence_keep" % (VERIF, VERIF, VERIF))
         r = sh("git -C /repo apply %s/patch.diff" % d)
         if r.returncode != 0:
             print(mid, "patch does not apply", r.stderr); continue
@@ -38,6 +40,7 @@ def main():
                 print(mid, c, tier, "exit", p.returncode, "violations", len(viol), flush=True)
         finally:
             sh("git -C /repo checkout -- .")
+            sh("cd %s && for f in work/evidence_keep/*.json; do cp $f evidence/; done" % VERIF)
         json.dump(results, open(RES, "w"), indent=1, sort_keys=True)
     assert sh("git -C /repo status --porcelain").stdout.strip() == ""
 
